@@ -33,13 +33,15 @@ open QV
 
 /-- What the simplifier needs from `Complex64` beyond `Scalar`: the tolerance tests `is_zero` / `is_one`
 (by_hand.rs:199-206), the equality used by `Expression`'s `Eq` on numeric leaves (`floating_point_eq::complex64::eq`),
-and the constants `real!(f64::NAN)`, `TWO`. -/
+and the constants `real!(f64::NAN)`, `TWO`, `-ONE` (`Complex64`'s own `Neg`: `-1-0i`; prefix minus is *not* that
+operation since a634ce0: `negate(v) = 0 - v`, which is `Scalar.sub Scalar.zero v`). -/
 class SimpScalar (K : Type) extends Scalar K where
   isZero : K → Bool
   isOne : K → Bool
   eqv : K → K → Bool
   nan : K
   two : K
+  negOne : K
 
 /-- Which branch was taken.  One constructor per match arm of `simplify` / `simplify_function_call` /
 `simplify_prefix` / `simplify_infix`, in source order. -/
@@ -150,7 +152,7 @@ def simplifyPrefix (S0 : Expr K → M K (Expr K)) (op : PrefixOp) (x : Expr K) :
   | .plus => do tick .prePlus; pure x'
   | .minus =>
     match x' with
-    | .number z => do tick .preNegNum; mkNum (Scalar.neg z)
+    | .number z => do tick .preNegNum; mkNum (Scalar.sub Scalar.zero z)   -- `negate(*x)` (mod.rs:424)
     | .pre .minus inner => do tick .preNegNeg; pure inner
     | _ => do tick .preNeg; pure (.pre .minus x')
 
@@ -293,13 +295,13 @@ def armNegNeg (S : Expr K → M K (Expr K)) : ArmFn K
 /-- :400-407 `a / (-a) => -1` -/
 def armDivNegSelfR : ArmFn K
   | l, .slash, .pre .minus e =>
-    if beqE l e then some (do tick .divNegSelfR; mkNum (Scalar.neg Scalar.one)) else none
+    if beqE l e then some (do tick .divNegSelfR; mkNum SimpScalar.negOne) else none
   | _, _, _ => none
 
 /-- :408-415 `(-a) / a => -1` -/
 def armDivNegSelfL : ArmFn K
   | .pre .minus e, .slash, r =>
-    if beqE e r then some (do tick .divNegSelfL; mkNum (Scalar.neg Scalar.one)) else none
+    if beqE e r then some (do tick .divNegSelfL; mkNum SimpScalar.negOne) else none
   | _, _, _ => none
 
 /-- :418-433 `a ⋇ (-b)`: `smaller(a ⋇ (-b), simplify(simplify(-a) ⋇ b))` -/
@@ -601,5 +603,7 @@ instance : SimpScalar CFloat where
   -- `real!(f64::NAN)`
   nan := (Float.ofBits 0x7FF8000000000000, 0.0)
   two := (2.0, 0.0)
+  -- `-ONE` = `-real!(1.0)` (by_hand.rs:409)
+  negOne := (-1.0, -0.0)
 
 end QV.C12
